@@ -78,7 +78,16 @@ def compid_s(risky=False, min_size=0):
 
 hash_s = st.sampled_from(list(R.HASH_ALGS))
 policy_s = st.lists(st.sampled_from(list(R.POLICY_BITS)), unique=True, max_size=4)
-digest_s = st.fixed_dictionaries({"suit-digest-algorithm-id": hash_s, "suit-digest-bytes": hexs(64)})
+DIGEST_LEN = {"cose-alg-sha-256": 32, "cose-alg-shake128": 16, "cose-alg-sha-384": 48, "cose-alg-sha-512": 64, "cose-alg-shake256": 32}
+digest_s = hash_s.flatmap(
+    lambda a: st.fixed_dictionaries(
+        {
+            "suit-digest-algorithm-id": st.just(a),
+            # arbitrary bytes, or bytes of exactly the algorithm's output length (plausible but wrong value)
+            "suit-digest-bytes": st.one_of(hexs(64), st.binary(min_size=DIGEST_LEN[a], max_size=DIGEST_LEN[a]).map(bytes.hex)),
+        }
+    )
+)
 digest_alg_only_s = st.fixed_dictionaries({"suit-digest-algorithm-id": hash_s})
 
 
